@@ -139,6 +139,42 @@ fn check_one_desc(rep: &Report, prop: Prop, c: &DescCase, thorough: bool, cen: &
                     }
                 }
             };
+            // Descriptor::satisfy is the same operation writing into a TxIn: same verdict, same data
+            if prop == Prop::C01 && !mall {
+                let mut txin = bitcoin::TxIn::default();
+                match (guard(|| c.desc.satisfy(&mut txin, &sat)), &r) {
+                    (Ok(Ok(())), Ok((w2, ss2))) => {
+                        let got: Vec<Vec<u8>> = txin.witness.iter().map(|x| x.to_vec()).collect();
+                        if &got != w2 || &txin.script_sig != ss2 {
+                            rep.violation(Violation {
+                                key: format!("C01|satisfy-txin|{}|{}", dsx, w.short()),
+                                class: format!("satisfy-differs-from-get_satisfaction-{}", c.kind()),
+                                what: "Descriptor::satisfy writes other data into the TxIn than get_satisfaction returns".into(),
+                                case: json!({"desc": c.desc.to_string(), "model": dsx, "world": w.json(), "txin_witness": got.iter().map(|x| hex(x)).collect::<Vec<_>>(), "txin_script_sig": hex(txin.script_sig.as_bytes())}),
+                            });
+                        } else {
+                            bump(cen, "satisfy_txin_equal");
+                        }
+                    }
+                    (Ok(Err(_)), Err(_)) => bump(cen, "satisfy_txin_both_refuse"),
+                    (Ok(a), b) => {
+                        rep.violation(Violation {
+                            key: format!("C01|satisfy-txin-verdict|{}|{}", dsx, w.short()),
+                            class: format!("satisfy-verdict-differs-{}", c.kind()),
+                            what: format!("Descriptor::satisfy is_ok = {} but get_satisfaction is_ok = {}", a.is_ok(), b.is_ok()),
+                            case: json!({"desc": c.desc.to_string(), "model": dsx, "world": w.json()}),
+                        });
+                    }
+                    (Err(p), _) => {
+                        rep.violation(Violation {
+                            key: format!("C01|panic|{}|satisfy|{}|{}", panic_site(&p), dsx, w.short()),
+                            class: format!("satisfier-panic@{}", panic_site(&p)),
+                            what: format!("Descriptor::satisfy panicked: {}", p),
+                            case: json!({"desc": c.desc.to_string(), "model": dsx, "world": w.json()}),
+                        });
+                    }
+                }
+            }
             match r {
                 Ok((witness, script_sig)) => {
                     bump(cen, "lib_ok");
